@@ -5,8 +5,10 @@ from units import U
 
 ID = 'C05'
 LEVEL = 'proof'
+GEN_TIES = {'Pairwin': 'Props/GenTie_Pairwin.v'}
 TIE = {'condorcet.Copeland/Schulze/MinimaxCondorcet/RankedPairs/KemenyYoung': 'correspondence',
-       'component/pairwin_scorer.py': 'correspondence (through minimax / ranked pairs)'}
+       'component/pairwin_scorer.py': 'translator (Gen/Pairwin.v regenerated on every run, Props/GenTie_Pairwin.v proves it equal to the '
+                                      'scorers of Model/Condorcet.v) + correspondence through minimax / ranked pairs'}
 RULE = ('corpus; random pairwise dictionaries over 3..6 candidates (Kemeny <= 5): profile-derived (truncation, shared ranks, both '
         'unranked_at_bottom), arbitrary sparse, dense with exact ties, forced Condorcet winners, counts x 1e25; every entry of '
         'condorcet.EVALUATORS, n_seats 1..|C|. Compared with the model (exact list, ties as sets) and judged by the declarative '
